@@ -974,7 +974,9 @@ func runQueue(fs *flag.FlagSet, args []string) {
 		}
 		nodes := len(offered) + 1
 		budget := 400 + 60*nodes*len(ths)*8
+		vsched.PostOp = !*freeze && rng.Intn(4) == 0 // a quarter of the runs without a frozen thread: a yield after every atomic access as well
 		res := vsched.Run(out, layers, bodies, budget, s.pick)
+		vsched.PostOp = false
 		fmt.Fprintf(out, "end\n")
 		// ---- monitors
 		msg := ""
